@@ -10,6 +10,7 @@ import (
 	"os/exec"
 	"path/filepath"
 	"runtime/debug"
+	"sort"
 	"strings"
 	"sync"
 	"testing"
@@ -626,26 +627,42 @@ func c17ReadOnlyProgram(rt *rapid.T, log []drv.Op, preload bool, col *collector)
 	if rt == nil {
 		ncli = len(cmds)
 	}
-	for i := 0; i < ncli; i++ {
-		var c []string
-		if rt != nil {
-			c = cmds[rapid.IntRange(0, len(cmds)-1).Draw(rt, "cli")]
-		} else {
-			c = cmds[i]
+	dirBefore := dirListing(e.Dir)
+	cliPass := func(phase string) *drv.Violation {
+		for i := 0; i < ncli; i++ {
+			var c []string
+			if rt != nil {
+				c = cmds[rapid.IntRange(0, len(cmds)-1).Draw(rt, "cli")]
+			} else {
+				c = cmds[i]
+			}
+			code, out := runCLI(c...)
+			if code < 0 || code > 1 {
+				return drv.Violf("`bbolt %s` (%s) crashed, blocked or could not run (exit %d): %s", c[0], phase, code, lastLine(out))
+			}
+			if v := unchanged("`bbolt " + c[0] + "` (" + phase + ")"); v != nil {
+				return v
+			}
+			if d := dirListing(e.Dir); d != dirBefore {
+				return drv.Violf("`bbolt %s` (%s) created or removed files next to the database: before %q, after %q", c[0], phase, dirBefore, d)
+			}
+			if col != nil {
+				col.Count("cli_"+c[0], 1)
+			}
 		}
-		code, out := runCLI(c...)
-		if code < 0 || code > 1 {
-			return drv.Violf("`bbolt %s` crashed or could not run (exit %d): %s", c[0], code, lastLine(out))
-		}
-		if v := unchanged("`bbolt " + c[0] + "`"); v != nil {
-			return v
-		}
-		if col != nil {
-			col.Count("cli_"+c[0], 1)
-		}
+		return nil
+	}
+	// while this process holds the file open read-only (a command that wanted the exclusive lock would block) ...
+	if v := cliPass("while a read-only handle is open"); v != nil {
+		return v
 	}
 	_ = e.CloseDB()
 	if v := unchanged("closing the read-only database"); v != nil {
+		return v
+	}
+	// ... and with nobody else holding the file (a command that opened it read-write would succeed - and, on a file
+	// without persisted free list, write one)
+	if v := cliPass("no other handle open"); v != nil {
 		return v
 	}
 	if col != nil {
@@ -662,6 +679,24 @@ func c17ReadOnlyProgram(rt *rapid.T, log []drv.Op, preload bool, col *collector)
 		col.Add(map[string]any{"ops": log, "preload": preload}, f1+f2 > 0 && refused > 0, lab)
 	}
 	return nil
+}
+
+// dirListing returns the sorted names and sizes of the entries of dir.
+func dirListing(dir string) string {
+	ents, err := os.ReadDir(dir)
+	if err != nil {
+		return "unreadable: " + err.Error()
+	}
+	var parts []string
+	for _, en := range ents {
+		sz := int64(-1)
+		if fi, err := en.Info(); err == nil {
+			sz = fi.Size()
+		}
+		parts = append(parts, fmt.Sprintf("%s:%d", en.Name(), sz))
+	}
+	sort.Strings(parts)
+	return strings.Join(parts, ",")
 }
 
 type countWriter struct{ n int64 }
